@@ -79,3 +79,22 @@ func VerifC11_Views() {
 		zz.Reach("responder")
 	}
 }
+
+// VerifC11_OnlyPauseActionsChangeFlags: each side's pause flag follows EXACTLY the pause and
+// resume actions: no other event (restart, accept, data, vouchers, limits, errors, completion
+// signals ...) ever changes a pause flag.
+func VerifC11_OnlyPauseActionsChangeFlags() {
+	f := verifFixtureWith(1, 0)
+	pre := &f.pre
+	code := datatransfer.EventCode(zz.Choice("code", VerifNumEvents))
+	switch code {
+	case datatransfer.PauseInitiator, datatransfer.ResumeInitiator, datatransfer.PauseResponder, datatransfer.ResumeResponder, datatransfer.DataLimitExceeded:
+		return
+	}
+	_ = VerifSendArbitrary(f.g, f.chid, code, "ev")
+	post := f.g.VerifPeek(f.chid)
+	zz.Assert(post.InitiatorPaused == pre.InitiatorPaused && post.ResponderPaused == pre.ResponderPaused, "only pause/resume actions change pause flags")
+	if len(f.notes.Log) > 0 {
+		zz.Reach("applied")
+	}
+}
